@@ -125,7 +125,9 @@ def truth_from_exts(ciphers, exts, alabel_ok=False):
     elif len(snis) == 1 and len(snis[0]) == 1 and snis[0][0][0] == 0 and rfc_hostname(snis[0][0][1], alabel_ok):
         tr["sni"] = ["exact", snis[0][0][1].decode("ascii")]
     else:
-        tr["sni"] = ["oneof", sorted({n.decode("latin-1") for s in snis for _, n in s})]
+        # only host_name (type 0) entries can ever be the SNI; without any the answer is None
+        hosts = sorted({n.decode("latin-1") for s in snis for t, n in s if t == 0})
+        tr["sni"] = ["oneof", hosts] if hosts else ["exact", None]
     return tr
 
 
@@ -325,21 +327,65 @@ def truth_fails(tr, r):
     return out
 
 
+def lib_ace(nm: bytes) -> bool:
+    """library answer HostLib.ace: does bytes.decode('idna') succeed"""
+    try:
+        nm.decode("idna"); return True
+    except ValueError:
+        return False
+
+
+def lib_ip(hb: bytes) -> bool:
+    """library answer HostLib.ip: does ipaddress.ip_address(host.decode('idna')) succeed"""
+    import ipaddress
+    try:
+        ipaddress.ip_address(hb.decode("idna")); return True
+    except ValueError:
+        return False
+
+
+def strip_dot(nm: bytes) -> bytes:
+    return nm[:-1] if nm.endswith(b".") else nm
+
+
+def pick_host_bit(nm: bytes, bits: str) -> bool:
+    """bits = validHost under constant library answers (ace, ip) = 00 01 10 11; choose by the real library"""
+    return bits[2 * int(lib_ace(nm)) + int(lib_ip(strip_dot(nm)))] == "1"
+
+
+def first_fragment_flight(wire: bytes) -> bytes:
+    """a DTLS flight made of the first handshake fragment of `wire` only (header as sent), in one record"""
+    r = Rd(wire); r.take(11); rec = Rd(r.vec(2))
+    hdr = rec.take(12); flen = int.from_bytes(hdr[9:12], "big")
+    return dtls_records([hdr + rec.take(flen)], [wire[2]])
+
+
 class Check(PropertyCheck):
     prop = "C13"
     design_ref = "§5 C13"
     level_text = ("Lean theorems over a total model of record reassembly (TLS and DTLS) + the kaitai ClientHello grammar + the "
-                  "ClientHello accessors: parse_total, prefix_stable_hello/_invalid, seg_independent (feeding any segmentation "
-                  "= parsing the concatenation), record_split_invariant (any re-chunking of the handshake bytes into valid "
-                  "records), agrees_with_builder (+ sni/alpn corollaries) for every well-formed structured hello under every "
-                  "record chunking, for ALL byte strings (induction, no bounds). DTLS handshake *fragmentation* is stated in "
-                  "full, proved only for unfragmented flights (_partial) with a proved counterexample (finding F-C13a). "
-                  "Model tied to the code differentially on every case: outcome class, sni, ALPN list, cipher list, "
-                  "extension (type, bytes) list, for whole inputs, prefixes and segment-by-segment feeding.")
-    level_note = ("trusted: Lean kernel; model/implementation tie is differential (not a proof about Python); "
-                  "check.is_valid_host is a parameter of the model's sni accessor (instantiated with the real function "
-                  "in the tie); starts_like_*_record tables are regenerated from the code each run by probing. "
-                  "dtls_fragment_invariant is NOT proved (it is false for the current code: F-C13a) — only "
+                  "ClientHello accessors + check.is_valid_host (transcribed): parse_total, prefix_stable_hello/_invalid, "
+                  "seg_independent (feeding any segmentation = parsing the concatenation), record_split_invariant, "
+                  "parse_records_payload / payload_only / hello_depends_only_on_payload / payload_incomplete (the result is a "
+                  "function of the hello message inside the concatenated record payload: every record cutting, every "
+                  "segmentation, anything after the hello inside the payload or after the records), agrees_with_builder + "
+                  "built_any_split + alpn/sni/extensions_of_built for every well-formed structured hello, sni_outright + "
+                  "validHost_of_labels/_too_long/_non_ascii (SNI of LDH/underscore names independent of the idna/ipaddress "
+                  "library), starts_table_is_function + starts_three_bytes_suffice (the probed starts_like_*_record table equals "
+                  "the source expression transcribed from the AST on every byte string) — all for ALL byte strings (induction, "
+                  "no bounds). DTLS handshake *fragmentation* is stated in full, proved only for unfragmented flights "
+                  "(_partial) with a proved counterexample (finding F-C13a). Model tied to the code differentially on every "
+                  "case: outcome class, PREDICTED sni (is_valid_host computed by the model), ALPN list, cipher list, extension "
+                  "(type, bytes) list, for whole inputs, prefixes and segment-by-segment feeding; is_valid_host and "
+                  "starts_like_*_record also tied directly (ops vhost / starts).")
+    level_note = ("trusted: Lean kernel; model/implementation tie is differential (not a proof about Python). Inside "
+                  "is_valid_host two library answers stay parameters of the model (HostLib): bytes.decode('idna') when the name "
+                  "contains b'xn--' (punycode/nameprep slow path) and ipaddress.ip_address when some label fails the DNS-label "
+                  "regex; the tie supplies the real library's answers, the model decides everything else. starts_like_*_record: "
+                  "Gen holds both the AST transcription and the probed behaviour, Lean proves them equal. The ground-truth "
+                  "oracle demands the exact SNI only for a single host_name entry that is an RFC 6066 LDH host name (or no "
+                  "host_name entry: None); for other names it only demands None-or-one-of-the-offered-host_names. "
+                  "dtls_fragment_invariant is NOT proved (false for the current code: F-C13a) — only "
                   "dtls_fragment_invariant_partial (single fragment) and its counterexample are.")
     technique = "Lean 4 proof (fuel-bounded total parsers, induction over records/extensions) + differential model-vs-code correspondence + independent builder/reader oracle + real OpenSSL hellos"
     rule = ("built: structured hellos from an independent builder (TLS/DTLS, +-SNI/ALPN, odd extensions, A-labels, session ids, "
@@ -356,20 +402,62 @@ class Check(PropertyCheck):
         "mitmproxy.proxy.layers.tls:get_dtls_client_hello", "mitmproxy.proxy.layers.tls:dtls_parse_client_hello",
         "mitmproxy.proxy.layers.tls:ClientTLSLayer.receive_handshake_data",
         "mitmproxy.net.tls:starts_like_tls_record", "mitmproxy.net.tls:starts_like_dtls_record",
+        "mitmproxy.net.check:is_valid_host",
         "mitmproxy.tls:ClientHello.__init__", "mitmproxy.tls:ClientHello.sni", "mitmproxy.tls:ClientHello.alpn_protocols",
         "mitmproxy.tls:ClientHello.extensions", "mitmproxy.tls:ClientHello.cipher_suites",
         "mitmproxy.contrib.kaitaistruct.tls_client_hello:TlsClientHello",
         "mitmproxy.contrib.kaitaistruct.dtls_client_hello:DtlsClientHello",
     ]
     trusted_base = ["kaitaistruct 0.11 KaitaiStream (read_u1/u2be/u4be/read_bytes raise EOFError exactly when short; is_eof)",
-                    "mitmproxy.net.check.is_valid_host (parameter of the sni accessor; real function used in the tie)",
+                    "CPython 3.12 encodings.idna (names containing b'xn--') and ipaddress.ip_address (names with a label outside the DNS-label regex): HostLib parameters, real answers used in the tie",
+                    "re semantics of rb'[A-Z\\d\\-_]{1,63}$' with IGNORECASE on bytes (transcribed as labelValid, tied by op vhost)",
                     "CPython ssl / pyOpenSSL clients as sources of real ClientHellos"]
-    parallel = True
+    parallel = False               # fork pool only pays off in the thorough tier (set in setup)
+
+    def setup(self, tier):
+        self.parallel = (tier == "thorough")
+        self.known_selftest()
 
     # ---------------------------------------------------------------------------------------------
+    @staticmethod
+    def transcribe_starts(fn):
+        """source-level transcription of `return len(d) > N and d[0] == A and d[1] == B and LO <= d[2] <= HI`
+        -> (N, A, B, LO, HI); an unrecognised shape gives impossible constants, which breaks `starts_table_ok`."""
+        import ast, inspect, textwrap
+        bad = (2, 256, 256, 1, 0)
+        try:
+            f = ast.parse(textwrap.dedent(inspect.getsource(fn))).body[0]
+            rets = [n for n in ast.walk(f) if isinstance(n, ast.Return)]
+            if len(rets) != 1: return bad
+            e = rets[0].value
+            arg = f.args.args[0].arg
+            if not (isinstance(e, ast.BoolOp) and isinstance(e.op, ast.And) and len(e.values) == 4): return bad
+            c_len, c0, c1, c2 = e.values
+            def is_idx(n, i):
+                return (isinstance(n, ast.Subscript) and isinstance(n.value, ast.Name) and n.value.id == arg
+                        and isinstance(n.slice, ast.Constant) and n.slice.value == i)
+            def const(n):
+                if isinstance(n, ast.Constant) and isinstance(n.value, int) and not isinstance(n.value, bool): return n.value
+                raise ValueError
+            if not (isinstance(c_len, ast.Compare) and len(c_len.ops) == 1 and isinstance(c_len.ops[0], ast.Gt)
+                    and isinstance(c_len.left, ast.Call) and getattr(c_len.left.func, "id", None) == "len"
+                    and len(c_len.left.args) == 1 and getattr(c_len.left.args[0], "id", None) == arg): return bad
+            n = const(c_len.comparators[0])
+            vals = []
+            for c, i in ((c0, 0), (c1, 1)):
+                if not (isinstance(c, ast.Compare) and len(c.ops) == 1 and isinstance(c.ops[0], ast.Eq) and is_idx(c.left, i)): return bad
+                vals.append(const(c.comparators[0]))
+            if not (isinstance(c2, ast.Compare) and len(c2.ops) == 2 and all(isinstance(o, ast.LtE) for o in c2.ops)
+                    and is_idx(c2.comparators[0], 2)): return bad
+            return (n, vals[0], vals[1], const(c2.left), const(c2.comparators[1]))
+        except Exception:
+            return bad
+
     def translate(self):
-        """starts_like_tls_record / starts_like_dtls_record as tables, by probing the real functions."""
-        rows = {}
+        """starts_like_tls_record / starts_like_dtls_record twice: (1) the source expression transcribed from the AST
+        (`tlsPred`/`dtlsPred`), (2) the behaviour of the real functions probed over the first three bytes
+        (`tlsStarts`/`dtlsStarts`). Lean proves (2) = (1) (`starts_table_ok`, `starts_table_is_function`)."""
+        rows, preds = {}, {}
         for name, fn in (("tls", net_tls.starts_like_tls_record), ("dtls", net_tls.starts_like_dtls_record)):
             probe = (0, 1, 2, 3, 4, 5, 0x7f, 0x80, 0xfb, 0xfc, 0xfd, 0xfe, 0xff)
             tab = []
@@ -379,16 +467,19 @@ class Check(PropertyCheck):
                         tab.append((a, b, [c for c in range(256) if fn(bytes((a, b, c, 0, 0)))]))
             short_ok = any(fn(bytes(t)) for t in ([], [0x16], [0x16, 3], [0x16, 0xfe]))
             rows[name] = (tab, short_ok)
+            preds[name] = self.transcribe_starts(fn)
         def lean_tab(tab):
             return "[" + ", ".join(f"({a}, {b}, [{', '.join(map(str, cs))}])" for a, b, cs in tab) + "]"
-        src = ("-- GENERATED by harness/c13.py translate() from mitmproxy/net/tls.py (starts_like_tls_record /\n"
-               "-- starts_like_dtls_record probed over the first three bytes). Do not edit.\n"
+        src = ("-- GENERATED by harness/c13.py translate() from mitmproxy/net/tls.py. Do not edit.\n"
                "namespace MitmVerif.Gen.C13\n\n"
-               "/-- (byte0, byte1, accepted byte2 values) -/\n"
+               "/-- behaviour of starts_like_*_record probed over the first three bytes: (byte0, byte1, accepted byte2 values) -/\n"
                f"def tlsStarts : List (Nat × Nat × List Nat) := {lean_tab(rows['tls'][0])}\n"
                f"def dtlsStarts : List (Nat × Nat × List Nat) := {lean_tab(rows['dtls'][0])}\n"
                f"/-- does a header shorter than three bytes ever qualify? -/\n"
                f"def shortAccepted : Bool := {'true' if rows['tls'][1] or rows['dtls'][1] else 'false'}\n\n"
+               "/-- the source expression `len(d) > N and d[0] == A and d[1] == B and LO <= d[2] <= HI` as (N, A, B, LO, HI) -/\n"
+               f"def tlsPred : Nat × Nat × Nat × Nat × Nat := {preds['tls']}\n"
+               f"def dtlsPred : Nat × Nat × Nat × Nat × Nat := {preds['dtls']}\n\n"
                "end MitmVerif.Gen.C13\n")
         return {"MitmVerif/Gen/C13.lean": src}
 
@@ -399,6 +490,40 @@ class Check(PropertyCheck):
                  b"xn--a.com", b"ab--cd.com", b"example.com\n", b"-a.com", b"a..b", b"*.example.com", b"ex\x00.com", b"fe80::1%eth0"]
     ALPNS = [b"h2", b"http/1.1", b"h3", b"http/1.0", b"spdy/3", b"foo", b"\x00\xff", b"a" * 255, b"x"]
     CIPHERS = [0x1301, 0x1302, 0x1303, 0xc02b, 0xc02f, 0xc02c, 0xc030, 0xcca9, 0xcca8, 0x009c, 0x002f, 0x0035, 0x00ff, 0x0a0a, 0x5600, 0x0000, 0xffff]
+
+    LABEL_CHARS = b"abcxyzABCXYZ0189-_"
+    V6 = [b"::1", b"::", b"1::", b"fe80::1%eth0", b"fe80::1%", b"::ffff:1.2.3.4", b"[::1]", b"1:2:3:4:5:6:7:8", b"1:2:3:4:5:6:7:8:9", b"::g",
+          b"1:2:3:4:5:6:7::", b"::1.2.3", b"12345::", b"::1%a.b", b"::1%xn--nxasmq6b", b"1.2.3.4", b"256.1.1.1", b"1.2.3", b"01.2.3.4", b"1.2.3.4.", b"::1."]
+
+    def gen_host(self, rng):
+        """host names around every branch of is_valid_host: label length 63/64, total length 255/256, trailing dot(s),
+        '\\n' before '$', characters outside the class, non-ASCII, xn-- (valid / invalid / elsewhere), IP literals"""
+        r = rng.random()
+        if r < 0.15: return rng.pick(self.V6)
+        if r < 0.25: return rng.pick(self.ODD_HOSTS)
+        def label():
+            n = rng.pick([1, 1, 2, 3, 5, 8, 20, 62, 63, 63, 64, 65])
+            return bytes(rng.pick(self.LABEL_CHARS) for _ in range(n))
+        labels = [label() for _ in range(rng.pick([1, 1, 2, 2, 3, 4, 6]))]
+        if rng.chance(0.15):                        # total length around the 255 limit
+            labels = [bytes(rng.pick(self.LABEL_CHARS) for _ in range(63)) for _ in range(3)]
+            labels.append(bytes(rng.pick(self.LABEL_CHARS) for _ in range(rng.pick([59, 60, 61, 62, 63]))))
+        k = rng.random()
+        i = rng.randrange(len(labels))
+        if k < 0.12: labels[i] = labels[i] + b"\n"
+        elif k < 0.2:
+            j = rng.randrange(len(labels[i]) + 1); labels[i] = labels[i][:j] + rng.pick([b" ", b"\n", b":", b"%", b"*", b"\x00", b"\x7f", b"/", b"\xc3\xa9", b"\xff", b"@"]) + labels[i][j:]
+        elif k < 0.3:
+            try: labels[i] = "".join(rng.pick("bücheréßλж中") for _ in range(rng.randint(1, 4))).encode("idna")
+            except UnicodeError: labels[i] = b"xn--bcher-kva"
+        elif k < 0.4: labels[i] = rng.pick([b"xn--", b"xn--a", b"xn--0", b"XN--bcher-kva", b"xn--bcher-kva", b"xn--BCHER-kva", b"axn--b", b"xn--\xff", b"xn---", b"xn--" + b"a" * 70, b"xn--zz--zz"])
+        elif k < 0.45: labels[i] = b""
+        nm = b".".join(labels)
+        t = rng.random()
+        if t < 0.15: nm += b"."
+        elif t < 0.2: nm += b".."
+        elif t < 0.23: nm = b"." + nm
+        return nm
 
     def gen_spec(self, rng, small=False):
         dtls = 1 if rng.chance(0.3) else 0
@@ -428,7 +553,7 @@ class Check(PropertyCheck):
                 pool.append({"t": "sni", "names": [[0, hx(hb)]]})
             elif s < 0.72:                     # unusual server_name contents
                 k = rng.random()
-                if k < 0.5: pool.append({"t": "sni", "names": [[0, hx(rng.pick(self.ODD_HOSTS))]]})
+                if k < 0.5: pool.append({"t": "sni", "names": [[0, hx(self.gen_host(rng) if rng.chance(0.7) else rng.pick(self.ODD_HOSTS))]]})
                 elif k < 0.7: pool.append({"t": "sni", "names": [[0, hx(rng.pick(self.HOSTS))], [rng.pick([0, 1, 7]), hx(rng.pick(self.HOSTS))]]})
                 elif k < 0.85: pool.append({"t": "sni", "names": [[rng.pick([1, 255]), hx(rng.pick(self.HOSTS))]]})
                 else: pool.append({"t": "sni", "names": [[0, hx(rng.bytes_(rng.randint(1, 12)))]]})
@@ -467,7 +592,7 @@ class Check(PropertyCheck):
         return spec
 
     def real_pool(self, rng, tier):
-        pool = []
+        pool, got, failed = [], set(), []
         n = 10 if tier == "quick" else 60
         for i in range(n):
             sni = rng.pick(self.HOSTS[:6] + [None])
@@ -481,11 +606,15 @@ class Check(PropertyCheck):
                 else:
                     alpn = alpn + [b"proto-%03d" % j for j in range(rng.randint(30, 60))]
                     data, dtls = real_openssl(True, sni, alpn, mtu=rng.pick([256, 300, 400])), 1
-            except Exception:
-                continue
-            if not data: continue
+            except Exception as e:
+                failed.append(f"client kind {k}: {type(e).__name__}: {e}"); continue
+            if not data:
+                failed.append(f"client kind {k}: no bytes"); continue
             c = {"kind": "real", "dtls": dtls, "data_hex": hx(data), "cfg": {"sni": sni.decode() if sni else None, "alpn": [hx(a) for a in alpn]}}
-            pool.append(c)
+            pool.append(c); got.add(k)
+        if got != {0, 1, 2, 3, 4}:
+            # never drop a whole class of real hellos silently (that hid the DTLS clients once): harness failure = INFRA
+            raise RuntimeError("real-client pool incomplete: " + "; ".join(failed[:5]))
         return pool
 
     def short_specs(self, rng, n):
@@ -508,6 +637,16 @@ class Check(PropertyCheck):
                 for i, j in itertools.combinations(range(1, min(n, 40)), 2):
                     c = dict(s); c["chunks"] = [i, j - i]; c["cuts"] = [i + 5, j + 10]
                     yield c
+        # starts_like_*_record: every boundary of the transcribed expression, and lengths 0..3
+        for dtls in (0, 1):
+            for a in (0x15, 0x16, 0x17):
+                for b in (2, 3, 4, 0xfd, 0xfe, 0xff):
+                    for c in (0, 1, 3, 4, 0xfc, 0xfd, 0xfe, 0xff):
+                        yield {"kind": "starts", "dtls": dtls, "data_hex": hx(bytes([a, b, c]) + (b"\x00\x00" if c & 1 else b""))}
+            for short in (b"", b"\x16", b"\x16\x03", b"\x16\xfe"):
+                yield {"kind": "starts", "dtls": dtls, "data_hex": hx(short)}
+        for h in self.ODD_HOSTS + self.HOSTS + self.V6:
+            yield {"kind": "host", "name_hex": hx(h)}
         pool = self.real_pool(rng, tier)
         for c in pool:
             d = dict(c); d["allcuts"] = 1 if len(unhx(c["data_hex"])) < 400 or tier == "thorough" else 0; d["layer"] = 1
@@ -516,7 +655,11 @@ class Check(PropertyCheck):
         recent = []
         while True:
             r = rng.random()
-            if r < 0.5:
+            if rng.chance(0.12):
+                yield {"kind": "host", "name_hex": hx(self.gen_host(rng))}
+            elif rng.chance(0.02):
+                yield {"kind": "starts", "dtls": rng.randint(0, 1), "data_hex": hx(rng.bytes_(rng.pick([2, 3, 3, 5, 13])))}
+            elif r < 0.5:
                 spec = self.add_layout(rng, self.gen_spec(rng))
                 recent.append((spec["dtls"], build_wire(spec))); recent = recent[-50:]
                 yield spec
@@ -651,6 +794,18 @@ class Check(PropertyCheck):
         return sorted(pts)
 
     def impl(self, case):
+        if case["kind"] == "host":
+            try:
+                v = netcheck.is_valid_host(unhx(case["name_hex"]))
+                return {"valid": v if isinstance(v, bool) else "not-a-bool"}
+            except Exception as e:
+                return {"valid": "exc:" + type(e).__name__}
+        if case["kind"] == "starts":
+            fn = net_tls.starts_like_dtls_record if case["dtls"] else net_tls.starts_like_tls_record
+            try:
+                return {"starts": bool(fn(unhx(case["data_hex"])))}
+            except Exception as e:
+                return {"starts": "exc:" + type(e).__name__}
         dtls, wires, truth = self.resolve(case)
         wire = wires[0]
         obs = {"whole": [run_parse(dtls, w) for w in wires]}
@@ -679,11 +834,21 @@ class Check(PropertyCheck):
             else:
                 body = strict_handshake_body(wire, True)
                 obs["unfrag"] = run_parse(dtls, dtls_records(dtls_fragments(body, None), [0xFF]))
+            # what the recorded defect predicts: the first fragment alone is taken for the whole message
+            obs["firstfrag"] = run_parse(dtls, first_fragment_flight(wire))
         return obs
 
     # ---------------------------------------------------------------------------------------------
     def oracle(self, case, obs):
         fails = []
+        if case["kind"] == "host":
+            # ClientHello.sni calls is_valid_host outside any try: an exception there is "failing in another way"
+            if not isinstance(obs["valid"], bool):
+                fails.append(f"totality: is_valid_host({unhx(case['name_hex'])!r}) ended with {obs['valid']}")
+            return fails
+        if case["kind"] == "starts":
+            if not isinstance(obs["starts"], bool): fails.append(f"totality: starts_like_*_record ended with {obs['starts']}")
+            return fails
         _, wires, truth = self.resolve(case)
         allr = obs["whole"] + [obs["inc"]] + obs["pre"] + ([obs["layer"]] if "layer" in obs else []) + [r for _, r in obs.get("prefix_bad", [])]
         # "it never fails in another way": outcome is one of incomplete / ClientHello / ValueError(invalid)
@@ -707,15 +872,72 @@ class Check(PropertyCheck):
         return fails
 
     def known(self, case, obs, failure):
-        # F-C13a: a DTLS ClientHello sent as >= 2 handshake fragments whose unfragmented form IS read correctly
-        if failure.startswith("truth:") and case.get("dtls") and case["kind"] in ("built", "real") and self.n_frags(case) >= 2:
-            _, _, truth = self.resolve(case)
-            if "unfrag" in obs and not truth_fails(truth, obs["unfrag"]):
-                return "F-C13a"
-        return None
+        """F-C13a exactly: input class = DTLS ClientHello (built/real) in >= 2 handshake fragments whose single-fragment
+        form IS read correctly; failure = the ground-truth clause ("truth:"), and what mitmproxy returned is precisely
+        what the recorded defect predicts: the result of taking the FIRST fragment alone for the whole message."""
+        if case.get("kind") not in ("built", "real") or not case.get("dtls"): return None
+        if not failure.startswith("truth: "): return None
+        if "unfrag" not in obs or "firstfrag" not in obs: return None
+        if self.n_frags(case) < 2: return None
+        _, _, truth = self.resolve(case)
+        if truth_fails(truth, obs["unfrag"]): return None            # the hello itself is not read correctly: something else
+        if obs["whole"][0] != obs["firstfrag"]: return None          # not "first fragment taken for the message"
+        if obs["whole"][0].get("o") not in ("invalid", "hello"): return None
+        if failure != "truth: " + "; ".join(truth_fails(truth, obs["whole"][0])): return None
+        return "F-C13a"
+
+    def known_selftest(self):
+        """frozen observations: positive witness + near misses of the F-C13a classifier (AssertionError -> INFRA).
+        Nothing here runs mitmproxy, so a changed tree cannot turn this into INFRA."""
+        import copy
+        from common.check import load_known
+        db = load_known(self.prop)
+        if "F-C13a" not in db: return
+        w = db["F-C13a"]["witness"]
+        truth = truth_from_spec(w)
+        good = {"o": "hello", "sni": None, "alpn": [], "ciphers": list(w["ciphers"]), "exts": []}
+        assert not truth_fails(truth, good), "selftest: frozen 'good' observation does not match the witness' truth"
+        inv = {"o": "invalid"}
+        def obs(whole, unfrag=good, firstfrag=inv):
+            return {"whole": [whole], "inc": whole, "pre": [], "unfrag": unfrag, "firstfrag": firstfrag}
+        f_inv = "truth: " + "; ".join(truth_fails(truth, inv))
+        trunc = dict(good, ciphers=[])                                    # a truncated-but-parsable first fragment
+        f_trunc = "truth: " + "; ".join(truth_fails(truth, trunc))
+        triples = [
+            (w, obs(inv), f_inv, "F-C13a"),                              # the recorded witness
+            (w, obs(trunc, firstfrag=trunc), f_trunc, "F-C13a"),         # "…or reads a truncated hello"
+            # (a) same input class, different failure
+            (w, obs(inv), "segmentation: fed in segments [5] gives {'o': 'invalid'}, in one piece {'o': 'hello'}", None),
+            (w, obs(inv), "totality: parsing ended with KeyError instead of None/ClientHello/ValueError", None),
+            (w, obs({"o": "exc", "type": "IndexError"}, firstfrag={"o": "exc", "type": "IndexError"}), "truth: outcome exc (IndexError)", None),
+            (w, obs({"o": "incomplete"}), "truth: outcome incomplete ()", None),   # not what "first fragment only" gives
+            (w, obs(trunc, firstfrag=inv), f_trunc, None),               # wrong hello, but not the first fragment's
+            (w, obs(inv, unfrag=inv), f_inv, None),                      # the unfragmented hello fails too: another defect
+            (w, obs(inv), "truth: sni: mitmproxy 'x' vs independent reader None", None),   # text is not the computed one
+        ]
+        # (b) neighbouring inputs, same kind of failure
+        one = copy.deepcopy(w); one["frags"] = None
+        triples.append((one, obs(inv), f_inv, None))                     # DTLS, ONE fragment
+        t = copy.deepcopy(w); t["dtls"] = 0; t.pop("cookie_hex", None); t.pop("frags", None); t["ver_hex"] = "0303"; t["recvers"] = [1]; t["chunks"] = [21]
+        triples.append((t, obs(inv), f_inv, None))                       # TLS hello split over two records
+        triples.append(({"kind": "bytes", "dtls": 1, "data_hex": hx(build_wire(w)), "cuts": []}, obs(inv), f_inv, None))
+        for i, (c, o, f, want) in enumerate(triples):
+            got = self.known(c, o, f)
+            assert got == want, f"known_selftest #{i}: known() = {got!r}, expected {want!r} for failure {f[:60]!r}"
+        # abstain branches: every generated case must be judged (no Skip), and the SNI demand is exact wherever it can be
+        from common.prng import Rng
+        rng = Rng(20260922)
+        for _ in range(150):
+            spec = self.add_layout(rng, self.gen_spec(rng))
+            self.validate_spec(spec)                                     # raises Skip (-> INFRA) if the generator makes junk
+        assert truth_from_exts([1], [(0, b"", [(1, b"a.b")])])["sni"] == ["exact", None]
+        assert truth_from_exts([1], [(0, b"", [(0, b"a.b")])])["sni"] == ["exact", "a.b"]
+        assert truth_from_exts([1], [(0, b"", [(0, b"a b")])])["sni"] == ["oneof", ["a b"]]
 
     # ---------------------------------------------------------------------------------------------
     def model_lines(self, case):
+        if case["kind"] == "host": return [f"vhost {case['name_hex']}"]
+        if case["kind"] == "starts": return [f"starts {1 if case['dtls'] else 0} {case['data_hex']}"]
         dtls, wires, _ = self.resolve(case)
         d = "1" if dtls else "0"
         lines = [f"parse {d} {hx(w)}" for w in wires]
@@ -732,6 +954,15 @@ class Check(PropertyCheck):
         return items
 
     def model_obs(self, case, replies):
+        if case["kind"] == "host":
+            bits = replies[0]
+            if len(bits) != 4 or set(bits) - {"0", "1"}: return {"model-said": bits}
+            try:
+                return {"valid": pick_host_bit(unhx(case["name_hex"]), bits)}
+            except Exception as e:              # a library answer failed in an undocumented way: still compare
+                return {"valid": "lib-exc:" + type(e).__name__}
+        if case["kind"] == "starts":
+            return {"table": replies[0][:1], "source": replies[0][1:]}
         out = []
         for rep in replies:
             f = rep.split(" ")
@@ -741,24 +972,38 @@ class Check(PropertyCheck):
                 out.append({"o": "model-said", "raw": rep[:100]}); continue
             kv = dict(x.split("=", 1) for x in f[1:])
             sni = None
-            for cand in self._lst(kv["s"]):       # is_valid_host is the model's parameter: instantiated with the real one
-                cb = unhx(cand)
-                if netcheck.is_valid_host(cb):
-                    sni = cb.decode("ascii"); break
+            # the model PREDICTS is_valid_host (transcribed regex/length/idna-fast-path rules); only the two library
+            # answers (idna slow path with xn--, ipaddress) are supplied: each candidate comes with its 4 verdicts
+            try:
+                for cand in self._lst(kv["s"]):
+                    ch, bits = cand.split(":")
+                    cb = unhx(ch)
+                    if pick_host_bit(cb, bits):
+                        sni = cb.decode("ascii", "replace"); break
+            except Exception as e:
+                sni = "lib-exc:" + type(e).__name__
             out.append({"o": "hello", "sni": sni, "alpn": self._lst(kv["a"]), "ciphers": [int(x) for x in self._lst(kv["c"])],
                         "exts": [[int(x.split(":")[0]), x.split(":")[1]] for x in self._lst(kv["e"])]})
         return out
 
     def impl_view(self, case, obs):
+        if case["kind"] == "host": return {"valid": obs["valid"]}
+        if case["kind"] == "starts":
+            b = "1" if obs["starts"] is True else "0" if obs["starts"] is False else str(obs["starts"])
+            return {"table": b, "source": b}
         return obs["whole"] + [obs["inc"]] + obs["pre"]
 
     # ---------------------------------------------------------------------------------------------
     def classify(self, case, obs):
+        if case["kind"] == "host": return None if case["name_hex"] == "-" else "host:" + case["name_hex"][:80]
+        if case["kind"] == "starts": return f"starts:{case['dtls']}:{case['data_hex'][:20]}"
         _, wires, _ = self.resolve(case)
         if not wires[0]: return None
         return hashlib.sha256(repr((case["dtls"], wires, case.get("cuts"))).encode()).hexdigest()[:20]
 
     def branches(self, case, obs):
+        if case["kind"] == "host": return ["kind:host", f"host:{obs['valid']}"]
+        if case["kind"] == "starts": return ["kind:starts", f"starts:{obs['starts']}"]
         w = obs["whole"][0]
         out = [f"kind:{case['kind']}", f"{'dtls' if case['dtls'] else 'tls'}:{w['o']}"]
         if w["o"] == "hello":
@@ -774,6 +1019,7 @@ class Check(PropertyCheck):
         return out
 
     def neighbours(self, case, rng):
+        if case["kind"] in ("host", "starts"): return
         _, wires, _ = self.resolve(case)
         w = wires[0]
         for i in range(min(len(w), 80)):
